@@ -146,8 +146,15 @@ func scReadCheck(acc eds.AccessorStreamer, s *sq.Square) (ret string) {
 	if err != nil {
 		return "err:AxisRoots:" + err.Error()
 	}
-	if !roots.Equals(s.DAH) {
+	// compared root by root: DataAvailabilityHeader.Equals/Hash memoise the hash inside the object
+	// without synchronisation, and both the reference and a cached accessor's roots are shared
+	if len(roots.RowRoots) != len(s.DAH.RowRoots) || len(roots.ColumnRoots) != len(s.DAH.ColumnRoots) {
 		return "wrong:AxisRoots"
+	}
+	for i := range roots.RowRoots {
+		if !bytes.Equal(roots.RowRoots[i], s.DAH.RowRoots[i]) || !bytes.Equal(roots.ColumnRoots[i], s.DAH.ColumnRoots[i]) {
+			return "wrong:AxisRoots"
+		}
 	}
 	return "ok"
 }
